@@ -357,6 +357,15 @@ func (fr *Frame) execInstr(in ssa.Instruction) bool {
 		}
 		r := e.newRef(fr.st, x.Name())
 		e.fnStatic[r] = Val{Fn: x.Fn.(*ssa.Function), Binds: binds}
+		// a closure made here has not been called yet: its ghost call counters (integer ghost fields
+		// owned by function values, e.g. fn.ncalls) start at zero
+		for _, g := range e.L.specs.Ghosts {
+			if g.Owner == "fn" && g.Type == "int" {
+				srt := arrSort(sRef, bvSort(64))
+				key := "X:" + g.Name
+				e.heapSet(fr.st, key, srt, sto(e.heapGet(fr.st, key, srt), r, bvLitI(64, 0)))
+			}
+		}
 		fr.set(x, Val{S: r, Fn: x.Fn.(*ssa.Function), Binds: binds, NN: true})
 	case *ssa.MakeInterface:
 		v := fr.val(x.X)
